@@ -1,9 +1,10 @@
 import TongoModel.Json
 import TongoModel.BocWriter
+import TongoModel.BocOrder
 /-! JSON form of boc.Cell / tlb.Any (boc/cell.go): `"` + BOC hex + `"`. The parser side is modelled through the BOC
 reader of TongoModel/Boc.lean (property C01/C07): `strings.Trim`, `hex.DecodeString`, `DeserializeBoc`, exactly one
-root. The printer side needs the cell ORDER chosen by the Go writer, which is not modelled (C01 `order_valid`); the
-round trip is therefore stated relative to that order (TongoProofs/C20.lean `json_roundtrip_cell`). -/
+root. The printer side is the whole Go writer of C01 (`Boc.Order.serializeBocModel`: the order computed by
+importCell/reorderCells/revisit, then the header arithmetic of serializeBoc). -/
 namespace Tongo.Json
 open Tongo Tongo.Dec
 
@@ -18,9 +19,14 @@ def parseCellJson (p : Str) : Outcome (Table × Nat) :=
     | .err e => .err e
     | .panic e => .panic e
 
-/-- Cell.MarshalJSON once the writer's order `(t, [root])` of the cell is fixed: ToBocString = hex of serializeBoc
-with idx = crc = cacheBits = false -/
+/-- Cell.MarshalJSON for an already ordered table `(t, [root])`: hex of serializeBoc's header arithmetic with
+idx = crc = cacheBits = false (see `printCellJsonGo` for the whole writer) -/
 def printCellJsonOrdered (t : Table) (root : Nat) : Str :=
   quote (hexLower (Boc.Writer.serializeOrdered t [root] false false false []))
+
+/-- Cell.MarshalJSON: `"` + hex of `serializeBoc` (order chosen by the Go writer; idx = crc = cacheBits = false) of the
+cell given as root `root` of the table `t`; `key` is the writer's de-duplication key (the hex representation hash) -/
+def printCellJsonGo {K : Type} [BEq K] [Hashable K] (t : Table) (key : Nat → Option K) (root : Nat) : Outcome Str :=
+  (Boc.Order.serializeBocModel t key [root] false false false).bind fun bs => .ok (quote (hexLower bs))
 
 end Tongo.Json
